@@ -94,8 +94,8 @@ Print Assumptions C14_verify_multi_complete.
 
 (* the folding iterator: on a stream made of complete blocks (length a multiple of 2^depth, any number of blocks, any
    depth) the stack machine of FoldedPolynomialTreeIter emits, block by block in post-order, exactly the values of the
-   successive foldings; read level by level they are the naive foldings of the stream.  (Streams needing zero padding
-   are covered by the correspondence over every length 1..130 and depth 0..7, not by this theorem.) *)
+   successive foldings; read level by level they are the naive foldings of the stream.  (Streams needing zero padding:
+   C14_tree_iter_is_naive_folding_padded below.) *)
 Theorem C14_tree_iter_machine :
   forall (FO : FieldOps) chs bs,
     Forall (fun b => length b = (2 ^ length chs)%nat) bs -> tree_iter chs (concat bs) = blocks_emit chs bs.
